@@ -92,16 +92,19 @@ class Scheduler:
         self.current = nxt
         self.baton[nxt].release()
 
-def make_tracer(sched, tid, trace_dirs, opcode_codes, granularity="line", only_phase=None):
+def make_tracer(sched, tid, trace_dirs, opcode_codes, granularity="line", only_phase=None, line_codes=()):
     """sys.settrace tracer for one thread.  granularity "line": a switch point on every ``line``
     event (and every ``opcode`` event inside the listed code objects) of library / generated code;
     granularity "call": a switch point at the entry of every library / generated function only
     (no line tracing at all, an order of magnitude fewer points); granularity "shallow:K": as "call",
-    restricted to functions entered with fewer than K library frames beneath them.  Frames of foreign code get no
-    local tracer, so they cost one global call each."""
+    restricted to functions entered with fewer than K library frames beneath them; granularity "codes": a switch point
+    on every ``line`` event of the listed code objects ``line_codes`` and nowhere else -- the listed functions may belong
+    to third-party code the library shares between threads (lark's lazily built lexer scanners).  Frames of foreign code
+    get no local tracer, so they cost one global call each."""
     dirs = tuple(trace_dirs)
     opcodes = set(opcode_codes)
     shallow = int(granularity.split(":")[1]) if granularity.startswith("shallow:") else 0
+    lcodes = set(line_codes)
 
     def local(frame, event, arg):
         if event == "line":
@@ -117,6 +120,8 @@ def make_tracer(sched, tid, trace_dirs, opcode_codes, granularity="line", only_p
             return None      # outside the explored phase nothing is a switch point (and nothing is traced)
         code = frame.f_code
         fn = code.co_filename
+        if granularity == "codes":
+            return local if code in lcodes else None
         if fn == "<string>" or fn.startswith(dirs):
             if granularity == "call":
                 sched.point(tid, (fn, f"{code.co_name}()"))
@@ -160,7 +165,7 @@ def _thread_body(sched, tid, body, results, tracer):
         sched.thread_end(tid)
 
 
-def execute(bodies, prefix, opcode_code_objects=(), phases=None, granularity="line", only_phase=None):
+def execute(bodies, prefix, opcode_code_objects=(), phases=None, granularity="line", only_phase=None, line_codes=()):
     """Run the thread bodies once under the schedule ``prefix`` (in THIS process).
     Returns dict(results, choices, points, error)."""
     repo.load()
@@ -168,7 +173,7 @@ def execute(bodies, prefix, opcode_code_objects=(), phases=None, granularity="li
     dirs = [os.path.join(repo.SRC, "celpy") + os.sep, os.path.join(repo.SRC, "xlate") + os.sep]
     sched = Scheduler(n, prefix, dirs, phases=phases)
     results = [None] * n
-    threads = [threading.Thread(target=_thread_body, args=(sched, i, bodies[i], results, make_tracer(sched, i, dirs, opcode_code_objects, granularity, only_phase)), daemon=True) for i in range(n)]
+    threads = [threading.Thread(target=_thread_body, args=(sched, i, bodies[i], results, make_tracer(sched, i, dirs, opcode_code_objects, granularity, only_phase, line_codes)), daemon=True) for i in range(n)]
     for t in threads:
         t.start()
     # initial pick: free choice among all threads
